@@ -16,4 +16,11 @@ def run(ctx):
 
 
 def concurrent_part(ctx):
-    pass
+    from bubblecommon import bubble_tv
+    # Watchable (sequential and concurrent Set/Value incl. Value racing the first Set; every channel ever
+    # handed out is polled at every quiescence), Future (Fill racing Wait/WaitContext, cancellation),
+    # Lazy (concurrent first calls); judged by Trace_WF
+    bubble_tv(ctx, "TestWF", "xsync", "Trace_WF", "tv_wf.cfg", "watchable-future-lazy", {"n": ctx.pick(600, 6000)}, silent=False)
+    if not ctx.quick():
+        bubble_tv(ctx, "TestWF", "xsync", "Trace_WF", "tv_wf.cfg", "watchable-future-lazy race", {"n": 900}, silent=False, race=True)
+    ctx.assumptions += ["a second Future.Fill is documented misuse and not exercised"]
